@@ -5,7 +5,8 @@ from __future__ import annotations
 import os
 import sys
 
-assert any(p.rstrip('/') == '/repo/src' for p in sys.path), 'checks must import exabgp from /repo/src'
+REPO_SRC = os.environ.get('VERIF_REPO_SRC', '/repo/src').rstrip('/')
+assert any(p.rstrip('/') == REPO_SRC for p in sys.path), 'checks must import exabgp from /repo/src'
 os.environ.setdefault('exabgp_log_enable', 'false')
 
 from exabgp.bgp.message import Message, Open  # noqa: E402
@@ -17,7 +18,7 @@ from exabgp.configuration.configuration import Configuration  # noqa: E402
 
 import exabgp  # noqa: E402
 
-assert exabgp.__file__.startswith('/repo/src/'), exabgp.__file__
+assert exabgp.__file__.startswith(REPO_SRC + '/'), exabgp.__file__
 
 
 class ConfigError(Exception):
